@@ -95,8 +95,14 @@ Check(t, todo, lvl) ==
               IN Check(t2, (todo \ here) \cup newp, lvl - 1)
 
 \* [res |-> set of allowed outcomes ("ok" | "bad" | "notenough"), tree |-> tree afterwards]
+\* numbers that name no node of this tree (a hash number >= the tree size, a leaf number beyond the padded leaves):
+\* the call is refused ("range": IndexError in the code) and - like every refusal - changes nothing
+OutOfRange(n, hashes, leaves) ==
+  \/ \E i \in DOMAIN hashes : i \notin Nodes(n)
+  \/ \E l \in DOMAIN leaves : FirstLeaf(n) + l \notin Nodes(n)
 SetHashes(n, t, hashes, leaves) ==
-  IF ArgConflict(n, hashes, leaves) THEN [res |-> {"bad"}, tree |-> t]
+  IF OutOfRange(n, hashes, leaves) THEN [res |-> {"range"}, tree |-> t]
+  ELSE IF ArgConflict(n, hashes, leaves) THEN [res |-> {"bad"}, tree |-> t]
   ELSE LET new == Merged(n, hashes, leaves) IN
     IF Conflicts(t, new) THEN [res |-> {"bad"}, tree |-> t]
     ELSE LET r == Check(Provisional(t, new), Added(t, new), MaxDepth(n))
